@@ -316,6 +316,11 @@ func jsonBases(quick bool) []string {
 		}
 	}
 	out = append(out, `{"length":"a"}`, "{}", `{"a":{}}`, `[{}]`, ` [ 1 , 2 ] `, `{"a":1,"a":2}`, `"\u00e9\n\\\/"`, `-0`, `1E+2`, `0.5e-1`)
+	// strings that carry a literal of the codec sources (dict.go), as a document and as a member
+	for _, m := range markerStrings() {
+		b, _ := json.Marshal(m)
+		out = append(out, string(b), "["+string(b)+"]")
+	}
 	return out
 }
 
@@ -330,6 +335,10 @@ func serBases(quick bool) []string {
 		}
 	}
 	out = append(out, `a:1:{i:0;a:1:{i:0;a:0:{}}}`, `i:+1;`, `d:1.0E+21;`, `d:-0;`, `a:2:{i:0;N;i:0;b:1;}`, `s:3:"a;b";`)
+	// strings that carry a literal of the codec sources (dict.go), as a document and as a member
+	for _, m := range markerStrings() {
+		out = append(out, phpSer(&P{K: 's', S: m}), "a:1:{i:0;"+phpSer(&P{K: 's', S: m})+"}")
+	}
 
 	return out
 }
@@ -464,6 +473,13 @@ func (dc *decCodec) classify(e *env, cc [2]string, s string, reduce bool) (cls, 
 		return "nesting-ladder " + cls, s
 	}
 	red = reduceText(s, func(c string) bool { return dc.ErrCls(c) == cls && failsText(c) })
+	if m := markerIn(red); m != "" {
+		// does the failure need the literal of the codec sources that the reduced text still carries?
+		// (same text with the literal overwritten by neutral letters of the same length)
+		if !failsText(strings.ReplaceAll(red, m, strings.Repeat("a", len(m)))) {
+			cls = "malformed+marker(" + m + ")"
+		}
+	}
 	return cls, red
 }
 
@@ -483,6 +499,9 @@ func decWorker(w *pool.W, arg json.RawMessage) {
 	quickClass := func(s string) string {
 		if ref, ok := dc.Ref(s); ok {
 			return pToT(ref).class()
+		}
+		if m := markerIn(s); m != "" {
+			return dc.ErrCls(s) + "+marker(" + m + ")"
 		}
 		return dc.ErrCls(s)
 	}
